@@ -21,11 +21,11 @@ PENDING = "planned under contract-based verification (see DESIGN.md section 6) b
 TEXT = {
  'C01': ("Deductive proof (Verus/Z3), for all buffers and every Matcher satisfying the documented trait contract, that the line searcher's fast, slow and inverted paths deliver a line as a match only if the pattern selects it (precondition of Core::sink_matched) and drop no selected line (postconditions of find_by_line_fast / match_by_line_* / SliceByLine::run); unbounded in input length and iteration count. The trait contract itself is an assumption; for the real grep-regex matcher it is validated by a bounded native enumeration (patterns of up to 4 tokens, haystacks up to 5 bytes, plain/-i/-w/-x), never counted as proved.",
          "contract-based deductive verification: Verus contracts spliced into the real functions of lines.rs/core.rs/glue.rs extracted from /repo on every run"),
- 'C02': ("Deductive proof (Verus/Z3), for every read history and buffer capacity allowed by the line-buffer contract, that rolling and refilling preserve the searcher's representation invariant and offset/line-number bookkeeping (Core::roll, ReadByLine::fill/run), with the same per-buffer Core contracts discharged for the slice and reader strategies; strategy routing predicate multi_line_with_matcher proved against its spec.",
+ 'C02': ("Deductive proof (Verus/Z3), for every read history and buffer capacity allowed by the line-buffer contract, that rolling and refilling preserve the searcher's representation invariant and offset/line-number bookkeeping (Core::roll, ReadByLine::fill/run), with the same per-buffer Core contracts discharged for the slice and reader strategies; strategy routing predicate multi_line_with_matcher proved against its spec. A bounded native enumeration (inputs up to 5 bytes, slow and fast line path, passthru, stop-on-nonmatch, reader chunks 1..2) compares reader and slice with a grep reference model; one listed known finding (byte count reported by the reader after an early stop).",
          "contract-based deductive verification (Verus) of Core::roll, ReadByLine::{fill,run}, SliceByLine::run, Searcher::multi_line_with_matcher; LineBuffer operations in unit linebuf"),
- 'C03': ("Deductive proof (Verus/Z3) of the grep-model bookkeeping of the searcher for all inputs: delivery order/uniqueness as preconditions of every sink_* call, true byte offset and 1-based line number of every event (count_lines, roll rebasing), separator logic, context reach, byte count of a completed slice search; line-location functions (locate, preceding, LineStep) proved against functional specs.",
+ 'C03': ("Deductive proof (Verus/Z3) of the grep-model bookkeeping of the searcher for all inputs: delivery order/uniqueness as preconditions of every sink_* call, true byte offset and 1-based line number of every event (count_lines, roll rebasing), separator logic, context reach, byte count of a completed slice search; context is sunk only ahead of a line range that is delivered as a match (this obligation exposed the phantom before-context of the unreported match at EOF in multi-line mode, now repaired); line-location functions (locate, preceding, LineStep) proved against functional specs; line-buffer operations of the reader strategy are part of this check.",
          "contract-based deductive verification (Verus), functional specs for lines.rs, representation invariant + event coordinates for Core"),
- 'C13': ("Deductive proof (Verus/Z3) of the multi-line strategy for all inputs and every Matcher satisfying the trait contract: the next match is the leftmost match at or after the position over the WHOLE input (postcondition taken from the property; it exposed the sub-slice defect now fixed), advance, the merge rule for touching/overlapping line ranges, delivery of a pending range exactly when the next match's lines start after it, protocol and ordering; one listed known finding for inverted mode.",
+ 'C13': ("Deductive proof (Verus/Z3) of the multi-line strategy for all inputs and every Matcher satisfying the trait contract: the next match is the leftmost match at or after the position over the WHOLE input (postcondition taken from the property; it exposed the sub-slice defect now fixed), advance, the merge rule for touching/overlapping line ranges, delivery of a pending range exactly when the next match's lines start after it, protocol and ordering; one listed known finding for inverted mode. A bounded native enumeration of the real strategy with the real grep-regex matcher (20 patterns, inputs up to 6/8 bytes) checks the property's statement end to end and supplies failing inputs.",
          "contract-based deductive verification (Verus) of MultiLine::{find,advance,sink,sink_matched_inverted,sink_matched,sink_context,run}"),
  'C14': ("Deductive proof (Verus/Z3) that, with binary detection on, the slice strategies never deliver a match or context range containing the quit byte and that the quit byte in an examined range always stops the caller (detect_binary, sink_* postconditions).",
          "contract-based deductive verification (Verus) of Core::detect_binary and the sink_* functions"),
@@ -39,7 +39,7 @@ TEXT['C15'] = ("Deductive proof (Verus/Z3) that main.rs::run computes the exit s
                "contract-based deductive verification (Verus) of crates/core/main.rs::run over an abstract environment")
 TEXT['C18'] = ("Deductive proof (Verus/Z3): CommandReader::close for every exit status / wait error / stderr content (waits exactly once, Ok iff success or (early stop and empty stderr), failure surfaces otherwise, idempotent); CommandReader::read records EOF before closing; SearchWorker::search_preprocessor / search_decompress return a result only if both the search of the command's output and close succeeded; should_preprocess / should_decompress equal the selection predicates and SearchWorker::search routes every path to the strategy whose predicate holds.",
                "contract-based deductive verification (Verus) of crates/cli/src/process.rs CommandReader::{close,read} and crates/core/search.rs SearchWorker::{search,should_preprocess,should_decompress,search_preprocessor,search_decompress} over an abstract environment")
-TEXT['C09'] = ("Deductive proof (Verus/Z3) of the decimal rendering used for every printed line number, column and byte offset (DecimalFormatter, all u64 values), plus the searcher-side proof that the coordinates and bytes handed to the printers are the input's own (Core::sink_* postconditions). base64_standard: bounded native exhaustive enumeration only (all inputs of 0..3 bytes). The printers' write paths are not verified.",
+TEXT['C09'] = ("Deductive proof (Verus/Z3) of the decimal rendering used for every printed line number, column and byte offset (DecimalFormatter, all u64 values), plus the searcher-side proof that the coordinates and bytes handed to the printers are the input's own (Core::sink_* postconditions). The printers' write paths are NOT proved; they are covered by bounded native enumerations only: printed lines / line numbers / byte offsets / columns and JSON texts, submatches, base64 and framing recomputed from the input (8 patterns, all inputs over {a,b,0xFF,newline} up to 6/8 bytes, four output modes, with and without -U; one listed known finding for --column in multi-line blocks), and base64_standard on every input of 0..3 bytes.",
                "contract-based deductive verification (Verus): DecimalFormatter against a recursive decimal spec; event coordinates from the searcher unit")
 TEXT['C12'] = ("Bounded only. Kani/CBMC (all byte paths up to 5 bytes): globset's candidate decomposition (pathutil::file_name, file_name_ext), cut mechanically from the real file, against an executable spec; counterexamples are replayed natively. Native bounded enumeration of the real globset crate: every glob up to 3 (quick) / 4 (thorough) tokens x 16 option combinations alone in a set, and every ordered pair of a 402-glob pool, against all paths up to 4 / 5 bytes over {a,b,.,/,-,A}: the set answers exactly like its member globs. Two defects found and repaired (paths ending in a dot; final component '.' or '..'). That a single glob means what is documented (parser, regex translation) is not verified.",
                "bounded function-vs-spec-function check with Kani on mechanically extracted real functions + bounded native enumeration with the property's own statement as oracle")
